@@ -1,35 +1,68 @@
 /-
   MdModel.Index — model of how `minidump_processor::process_minidump` indexes a dump into a
   `ProcessState` (engine `index`, property C14):
-    * `MinidumpInfo::new`                      (minidump-processor/src/processor.rs:495-632)
-    * `MinidumpInfo::get_exception_details`    (processor.rs:635-713: reason, address, context)
-    * `MinidumpInfo::into_process_state`       (processor.rs:1020-1226: one `CallStack` per thread,
+    * `MinidumpInfo::new`                      (minidump-processor/src/processor.rs:495-639)
+    * `MinidumpInfo::get_exception_details`    (processor.rs:642-720: reason, address, context)
+    * `MinidumpInfo::into_process_state`       (processor.rs:1027-1239: one `CallStack` per thread,
       dump-writer thread skipped, requesting thread, context preference, thread names, process id
-      and create time, unloaded-module offsets per frame)
+      and create time, STACK-MEMORY SELECTION (1166-1183), `walk_stack` on the selected memory
+      (1185-1198), unloaded-module offsets for every frame (1200-1218))
     * the stream readers as far as they decide what the processor sees: thread names (last readable
-      duplicate wins, minidump.rs:1402-1437), Breakpad info validity bits (4189-4218), misc-info
-      flag-guarded fields (3455-3560, 4058-4063), module list (bad sizes dropped, 1541-1569),
-      unloaded module list (bad size ⇒ whole stream fails, 1647-1671), `/proc/<pid>/status`
-      (`Pid` entry, process_state.rs:113-123).
-  The crash reason and address live in `MdModel.Reason`; the range tables in `MdModel.RangeMap` (C08).
+      duplicate wins, minidump.rs:1402-1437), Breakpad info validity bits, misc-info flag-guarded
+      fields, module list (bad sizes dropped; an unreadable name fails the stream, 1541-1569),
+      unloaded module list (bad size or unreadable name ⇒ whole stream fails, 1647-1671),
+      `/proc/<pid>/status`, the thread's stack descriptor (`MinidumpMemory::read`, 1979-1999),
+      `MinidumpThread::stack_memory` (2865-2878), `Minidump::get_memory` (5635-5643: memory-64 list
+      preferred), `MinidumpMemoryList::read` (unreadable descriptors dropped, 2314-2334),
+      `memory_at_address` (C08's range table, 2162-2184), `get_memory_at_address::<u64>` (2048-2055).
+  The crash reason and address live in `MdModel.Reason`; the range tables in `MdModel.RangeMap`
+  (C08); the stack walker in `MdModel.Walk` (C05/C04): `index` CALLS `Walk.walk` on the selected
+  memory with the chosen start context, so every call stack of the state is a walk by construction.
+  The copy rules (system info, LSB, macOS crash info, …) are in `MdModel.IndexCopy`.
 
-  A dump is described abstractly (`Dump`); contexts are abstracted to "readable with instruction
-  pointer ip" or "unreadable" (what `MinidumpContext::read(..).ok()` yields), which is exactly the
-  information `into_process_state` uses before stack walking. The engine builds real dump bytes
-  from the same description; threads get no stack memory, so the walk yields the context frame only.
+  A dump is described abstractly (`Dump`). A context is "readable with registers ip/sp/fp" or
+  "unreadable" (what `MinidumpContext::read(..).ok()` yields); symbols are absent (the engine
+  uses an empty symbol supplier), so walking is frame-pointer + scan. Names are what
+  `read_string_utf16` yields (`none` = unreadable or not well-formed UTF-16; the protocol layer
+  decodes the code units with C01's `utf16Decode`). Memory is little-endian in `MdModel.Walk`:
+  a BIG-endian dump whose walk would read stack memory is answered `unmodelled` (the engine
+  generates big-endian dumps for the CPUs that have no unwinder, or without stack memory).
 -/
 import MdModel.Prelude
 import MdModel.RangeMap
 import MdModel.Reason
+import MdModel.Dump
+import MdModel.Walk.Proto
+import MdModel.IndexCopy
 namespace MdModel.Index
 open MdModel
 open MdModel.Reason (Exc Reason Os Cpu)
+open MdModel.Gen
+open MdModel.Walk (Mem)
 
-/-- One `MINIDUMP_THREAD`: its id and what `thread.context(..)` yields on a CPU that has a
-    context format (`some ip` = readable context with that instruction pointer). -/
+/-- the registers of a context record the walk without symbols depends on -/
+structure Regs where
+  ip : Nat
+  sp : Nat := 0
+  fp : Nat := 0
+  deriving Repr, DecidableEq
+
+/-- `MINIDUMP_THREAD.stack` as `MinidumpMemory::read` sees it -/
+inductive StackDesc where
+  /-- rva 0, or a location outside the file -/
+  | unreadable
+  /-- `data_size = b.size` bytes at a valid location (size 0 is unreadable too) -/
+  | bytes (b : Array UInt8)
+  deriving Repr, DecidableEq
+
+/-- One `MINIDUMP_THREAD`: its id, what `thread.context(..)` yields on a CPU that has a context
+    format, and its stack descriptor. -/
 structure Thread where
   id : Nat
-  ctx : Option Nat
+  ctx : Option Regs
+  /-- `stack.start_of_memory_range` -/
+  stackStart : Nat := 0
+  stack : StackDesc := .unreadable
   deriving Repr, DecidableEq
 
 /-- `MINIDUMP_BREAKPAD_INFO` -/
@@ -46,12 +79,26 @@ structure Misc where
   ctime : Nat
   deriving Repr
 
-/-- a (loaded or unloaded) module record: base, size, name -/
+/-- a module record of a stream: base, size, and the name if `read_string_utf16` yields one -/
+structure RawMod where
+  base : Nat
+  size : Nat
+  name : Option String
+  deriving Repr, DecidableEq
+
+/-- a (loaded or unloaded) module of the process state -/
 structure Mod where
   base : Nat
   size : Nat
   name : String
   deriving Repr, DecidableEq
+
+/-- a `MINIDUMP_MEMORY_DESCRIPTOR` of the memory list: `bytes = none` when the location cannot be
+    read (rva 0 or outside the file) -/
+structure MemDesc where
+  base : Nat
+  bytes : Option (Array UInt8)
+  deriving Repr
 
 /-- The abstract dump. `none` for a stream = absent (or unreadable as a whole). -/
 structure Dump where
@@ -64,28 +111,44 @@ structure Dump where
   names : List (Nat × Option String)
   breakpad : Option Breakpad
   /-- exception stream and its context -/
-  exc : Option (Exc × Option Nat)
+  exc : Option (Exc × Option Regs)
   misc : Option Misc
   /-- `/proc/<pid>/status` as key/value lines -/
   status : Option (List (String × String))
-  modules : List Mod
-  unloaded : List Mod
-  deriving Repr
+  modules : List RawMod
+  unloaded : List RawMod
+  /-- the dump is big-endian (swapped signature) -/
+  bigEndian : Bool := false
+  /-- memory list stream -/
+  memList : Option (List MemDesc) := none
+  /-- memory-64 list stream; `some none` = present but unreadable -/
+  mem64 : Option (Option (List Mem)) := none
+  sys : SysRaw := {}
+  /-- `/etc/lsb-release` stream as key/value lines -/
+  lsb : Option (List (String × String)) := none
+  /-- records of a readable macOS crash-info stream -/
+  macCrash : Option (List MacRec) := none
+  /-- macOS boot-args stream: `some s` = stream readable, `s` = the string if IT is readable -/
+  bootArgs : Option (Option String) := none
+  /-- number of descriptors of a readable handle-data stream -/
+  handles : Option Nat := none
 
 inductive Info where
   | ok | missingContext | dumpThreadSkipped
   deriving DecidableEq, Repr
+
+/-- a frame of the process state: the walker's frame and `frame.unloaded_modules`
+    ((name, offset) pairs in `by_addr` order) -/
+structure IFrame where
+  f : Walk.Frame
+  unloaded : List (String × Nat)
 
 /-- One `CallStack` as far as indexing is concerned. -/
 structure Stack where
   id : Nat
   name : Option String
   info : Info
-  /-- instruction of the context frame -/
-  frame0 : Option Nat
-  /-- (unloaded module name, offset) of the context frame, in `by_addr` order -/
-  unloaded : List (String × Nat)
-  deriving Repr, DecidableEq
+  frames : List IFrame
 
 structure State where
   stacks : List Stack
@@ -97,7 +160,15 @@ structure State where
   time : Nat
   modules : List Mod
   unloaded : List Mod
-  deriving Repr
+  sys : SysInfo
+  lsb : Option Lsb
+  macCrash : Option (List MacOut)
+  bootArgs : Option (Option String)
+  /-- `assertion` -/
+  assertion : Option String
+  /-- `cert_info` (module name, certificate) -/
+  certs : List (String × String)
+  handles : Option Nat
 
 /-! ### stream readers -/
 
@@ -126,11 +197,11 @@ def requestingId (d : Dump) : Option Nat :=
   | none => bpRequestingId d.breakpad
 
 /-- what `MinidumpContext::read(..).ok()` yields for a context on this dump's architecture -/
-def readCtx (d : Dump) (c : Option Nat) : Option Nat :=
+def readCtx (d : Dump) (c : Option Regs) : Option Regs :=
   if Reason.archHasContext d.arch then c else none
 
 /-- `exception_details.context` -/
-def excCtx (d : Dump) : Option Nat :=
+def excCtx (d : Dump) : Option Regs :=
   match d.exc with
   | some (_, c) => readCtx d c
   | none => none
@@ -166,21 +237,55 @@ def createTime (d : Dump) : Option Nat :=
   | none => none
 
 /-- module / unloaded-module size test shared by both readers -/
-def badSize (m : Mod) : Bool := m.size = 0 || m.size > U64MAX - m.base
+def badSize (m : RawMod) : Bool := m.size = 0 || m.size > U64MAX - m.base
 
-/-- `MinidumpModuleList::read`: bad entries are dropped -/
-def loadedModules (d : Dump) : List Mod := d.modules.filter (fun m => !badSize m)
+def RawMod.toMod (m : RawMod) : Mod := ⟨m.base, m.size, m.name.getD ""⟩
 
-/-- `MinidumpUnloadedModuleList::read`: one bad entry fails the stream ⇒ empty list -/
+/-- `MinidumpModuleList::read`: entries with an impossible size are dropped; a remaining entry
+    whose name cannot be read fails the stream (`MinidumpModule::read(..)?`) ⇒ empty list -/
+def loadedModules (d : Dump) : List Mod :=
+  let ok := d.modules.filter (fun m => !badSize m)
+  if ok.any (fun m => m.name.isNone) then [] else ok.map RawMod.toMod
+
+/-- `MinidumpUnloadedModuleList::read`: one bad size or one unreadable name fails the stream -/
 def unloadedModules (d : Dump) : List Mod :=
-  if d.unloaded.any badSize then [] else d.unloaded
+  if d.unloaded.any badSize || d.unloaded.any (fun m => m.name.isNone) then [] else d.unloaded.map RawMod.toMod
 
-/-- `modules.module_at_address(a).is_some()` through C08's `into_rangemap_safe` + `RangeMap::get`.
-    `none` = the `unwrap` in `into_rangemap_safe` fired (C08 proves it cannot). -/
-def inLoadedModule (ms : List Mod) (a : Nat) : Option Bool :=
-  match RangeMap.safe (ms.zipIdx.map fun (m, i) => (RangeMap.mkRange m.base m.size, i)) with
-  | .ok t => some (RangeMap.get t a).isSome
-  | .panic _ => none
+/-- `MinidumpMemoryList::read`: descriptors whose `MinidumpMemory::read` fails (rva 0, size 0,
+    outside the file) are skipped -/
+def memoryOfList (l : List MemDesc) : List Mem :=
+  l.filterMap fun e =>
+    match e.bytes with
+    | some b => if b.size = 0 then none else some { base := e.base, bytes := b }
+    | none => none
+
+/-- `Minidump::get_memory().unwrap_or_default()`: the memory-64 list if that stream can be read,
+    else the memory list, else nothing -/
+def memoryList (d : Dump) : List Mem :=
+  match d.mem64 with
+  | some (some rs) => rs
+  | _ =>
+    match d.memList with
+    | some l => memoryOfList l
+    | none => []
+
+/-- input of `into_rangemap_safe` for a memory list: `(region.memory_range(), index)` -/
+def memEntries (rs : List Mem) : List (Option RangeMap.Rng × Nat) :=
+  rs.zipIdx.map fun (m, i) => (RangeMap.mkRange m.base m.size, i)
+
+/-- input of `into_rangemap_safe` for the loaded modules -/
+def modEntries (ms : List Mod) : List (Option RangeMap.Rng × Nat) :=
+  ms.zipIdx.map fun (m, i) => (RangeMap.mkRange m.base m.size, i)
+
+/-- `memory_list.memory_at_address(a)`: C08's table, then the region by index -/
+def memAt (rs : List Mem) (a : Nat) : Option Mem :=
+  (RangeMap.get (RangeMap.safeVec (memEntries rs)) a).bind fun i => rs[i]?
+
+/-- the `unwrap` inside `into_rangemap_safe` does not fire (C08 proves it never does) -/
+def tableOk (xs : List (Option RangeMap.Rng × Nat)) : Bool :=
+  match RangeMap.safe xs with
+  | .ok _ => true
+  | .panic _ => false
 
 /-- `frame.instruction - unloaded.raw.base_of_image` for every module of
     `unloaded_modules.modules_at_address(frame.instruction)`; overflow checks are on, so a module
@@ -192,12 +297,91 @@ def offsetsAt (ums : List Mod) (a : Nat) : Option (List (String × Nat)) :=
     | some m => if m.base ≤ a then some (m.name, a - m.base) else none
     | none => none
 
-/-- `frame.unloaded_modules` of a frame at `a`: only when no loaded module covers it -/
-def frameUnloaded (ms ums : List Mod) (a : Nat) : Option (List (String × Nat)) :=
-  match inLoadedModule ms a with
-  | none => none
-  | some true => some []
-  | some false => offsetsAt ums a
+/-! ### stack-memory selection (processor.rs:1166-1183) -/
+
+/-- `thread.stack`: what `MinidumpMemory::read(&raw.stack, ..).ok()` yields -/
+def ownDesc (t : Thread) : Option Mem :=
+  match t.stack with
+  | .bytes b => if b.size = 0 then none else some { base := t.stackStart, bytes := b }
+  | .unreadable => none
+
+/-- `thread.stack_memory(memory_list)`: the thread's own stack descriptor if readable, else the
+    region of the memory list that contains `stack.start_of_memory_range` -/
+def ownStack (mem : List Mem) (t : Thread) : Option Mem :=
+  match ownDesc t with
+  | some m => some m
+  | none => memAt mem t.stackStart
+
+/-- `memory.get_memory_at_address::<u64>(sp).is_some()`: EIGHT bytes at `sp` lie inside the
+    region, whatever the pointer width of the CPU -/
+def hasWord (m : Option Mem) (sp : Nat) : Bool := (m.bind fun m => m.read sp 8).isSome
+
+/-- the memory handed to `walk_stack`: the thread's own stack memory when it holds eight bytes at
+    the START context's stack pointer (or when there is no start context), else the region of the
+    memory list containing that stack pointer, else the thread's own stack memory after all -/
+def selectMem (mem : List Mem) (t : Thread) (sp : Option Nat) : Option Mem :=
+  let own := ownStack mem t
+  match sp with
+  | none => own
+  | some sp =>
+    if hasWord own sp then own
+    else
+      match memAt mem sp with
+      | some r => some r
+      | none => own
+
+/-! ### the walk of one thread -/
+
+/-- the unwinder `get_caller_frame` dispatches to for contexts of this architecture
+    (minidump-unwind/src/lib.rs:665-678); PPC, PPC64 and SPARC contexts have none -/
+def unwinderOf (arch : Nat) : Option Walk.Arch :=
+  match Reason.lookup Enums.ProcessorArchitecture arch with
+  | some "PROCESSOR_ARCHITECTURE_INTEL" | some "PROCESSOR_ARCHITECTURE_IA32_ON_WIN64" => some .x86
+  | some "PROCESSOR_ARCHITECTURE_AMD64" => some .amd64
+  | some "PROCESSOR_ARCHITECTURE_ARM" => some .arm
+  | some "PROCESSOR_ARCHITECTURE_ARM64" => some .arm64
+  | some "PROCESSOR_ARCHITECTURE_ARM64_OLD" => some .arm64old
+  | some "PROCESSOR_ARCHITECTURE_MIPS" => some .mips32
+  | _ => none
+
+/-- the distinctions of `system_info.os` the unwinders observe -/
+def walkOs (os : Os) : Walk.Os :=
+  match os with
+  | .windows => .windows
+  | .ios => .ios
+  | _ => .other
+
+def fpName : Walk.Arch → String
+  | .x86 => "ebp"
+  | .amd64 => "rbp"
+  | _ => "fp"
+
+/-- `MinidumpContext::from_raw`: all registers valid; registers other than ip/sp/fp are not
+    looked at by the frame-pointer and scan unwinders -/
+def toCtx (arch : Nat) (r : Regs) : Walk.Ctx :=
+  { ip := r.ip, sp := r.sp,
+    rest := match unwinderOf arch with
+      | some a => [(fpName a, r.fp)]
+      | none => [],
+    valid := none }
+
+def toModule (m : Mod) : Walk.Module := { base := m.base, size := m.size, name := m.name }
+
+/-- the loaded modules as the walker sees them; the symbol supplier has no file for any of them -/
+def worldOf (ms : List Mod) : Walk.World := { mods := ms.map toModule, syms := ms.map fun _ => none }
+
+/-- the stack memory the unwinders can use: none on a CPU without an unwinder -/
+def walkMem (arch : Nat) (sel : Option Mem) : Option Mem :=
+  if (unwinderOf arch).isSome then sel else none
+
+/-- the environment of a walk of this dump -/
+def envOf (d : Dump) (sel : Option Mem) : Walk.Env :=
+  Walk.mkEnv ((unwinderOf d.arch).getD .x86) (walkOs (Os.ofPlatformId d.platformId))
+    (worldOf (loadedModules d)) ((walkMem d.arch sel).getD { base := 0, bytes := #[] })
+
+/-- `walk_stack` on `[StackFrame::from_context(ctx, Context)]` with the selected memory -/
+def framesOf (d : Dump) (sel : Option Mem) (c : Walk.Ctx) : List Walk.Frame :=
+  Walk.walk (envOf d sel) (walkMem d.arch sel) c
 
 /-! ### into_process_state -/
 
@@ -209,45 +393,77 @@ def isRequesting (d : Dump) (t : Thread) : Bool :=
   !isDumpThread d t && requestingId d == some t.id
 
 /-- the context the walk of this thread starts from -/
-def startCtx (d : Dump) (t : Thread) : Option Nat :=
+def startCtx (d : Dump) (t : Thread) : Option Regs :=
   if isDumpThread d t then none
   else if isRequesting d t then (excCtx d).orElse (fun _ => readCtx d t.ctx)
   else readCtx d t.ctx
 
-/-- the `CallStack` built for one thread (before unloaded-module attribution) -/
-def stackOf (d : Dump) (t : Thread) : Stack :=
+/-- the memory `walk_stack` gets for this thread -/
+def stackMemOf (d : Dump) (t : Thread) : Option Mem :=
+  selectMem (memoryList d) t ((startCtx d t).map (·.sp))
+
+/-- a call stack before unloaded-module attribution -/
+structure PreStack where
+  id : Nat
+  name : Option String
+  info : Info
+  /-- the stack memory selected for the walk -/
+  sel : Option Mem
+  frames : List Walk.Frame
+
+/-- the `CallStack` built and walked for one thread -/
+def stackOf (d : Dump) (t : Thread) : PreStack :=
   if isDumpThread d t then
     -- `CallStack::with_info(id, DumpThreadSkipped)` + its name from the names stream: no frames
-    { id := t.id, name := nameOf d.names t.id, info := .dumpThreadSkipped, frame0 := none, unloaded := [] }
+    { id := t.id, name := nameOf d.names t.id, info := .dumpThreadSkipped, sel := stackMemOf d t, frames := [] }
   else
     match startCtx d t with
-    | some ip => { id := t.id, name := nameOf d.names t.id, info := .ok, frame0 := some ip, unloaded := [] }
-    | none => { id := t.id, name := nameOf d.names t.id, info := .missingContext, frame0 := none, unloaded := [] }
+    | some r =>
+      { id := t.id, name := nameOf d.names t.id, info := .ok, sel := stackMemOf d t,
+        frames := framesOf d (stackMemOf d t) (toCtx d.arch r) }
+    | none =>
+      { id := t.id, name := nameOf d.names t.id, info := .missingContext, sel := stackMemOf d t, frames := [] }
 
 /-- the `.enumerate().map(..)` over the thread list with its side effect on `requesting_thread`:
     returns the call stacks and the final value of `requesting_thread` (last assignment wins). -/
-def loop (d : Dump) : Nat → List Thread → Option Nat → List Stack × Option Nat
+def loop (d : Dump) : Nat → List Thread → Option Nat → List PreStack × Option Nat
   | _, [], req => ([], req)
   | i, t :: ts, req =>
     let r := loop d (i + 1) ts (if isRequesting d t then some i else req)
     (stackOf d t :: r.1, r.2)
 
-/-- attach `frame.unloaded_modules` to the context frame; `none` = panic -/
-def attachUnloaded (ms ums : List Mod) : List Stack → Option (List Stack)
+/-- `g` on every element; `none` as soon as one fails -/
+def optMap {α β : Type} (g : α → Option β) : List α → Option (List β)
   | [] => some []
-  | s :: rest =>
-    match s.frame0 with
-    | none => (attachUnloaded ms ums rest).map (s :: ·)
-    | some a =>
-      match frameUnloaded ms ums a, attachUnloaded ms ums rest with
-      | some u, some r => some ({ s with unloaded := u } :: r)
-      | _, _ => none
+  | a :: as =>
+    match g a, optMap g as with
+    | some b, some bs => some (b :: bs)
+    | _, _ => none
+
+/-- `frame.unloaded_modules`: only for a frame without a loaded module; `none` = panic -/
+def attachFrame (ums : List Mod) (f : Walk.Frame) : Option IFrame :=
+  match f.module with
+  | some _ => some { f := f, unloaded := [] }
+  | none =>
+    match offsetsAt ums f.instruction with
+    | some u => some { f := f, unloaded := u }
+    | none => none
+
+def attachStack (ums : List Mod) (s : PreStack) : Option Stack :=
+  match optMap (attachFrame ums) s.frames with
+  | some fs => some { id := s.id, name := s.name, info := s.info, frames := fs }
+  | none => none
 
 inductive Result where
   | missingThreadList
   | panic
+  /-- a big-endian dump whose walk would read stack memory: outside this model -/
+  | unmodelled
   | state (s : State)
-  deriving Repr
+
+/-- a walk of this dump would read memory through the (little-endian) walker model -/
+def walksMemory (d : Dump) (ss : List PreStack) : Bool :=
+  ss.any fun s => !s.frames.isEmpty && (walkMem d.arch s.sel).isSome
 
 /-- `process_minidump` as far as C14 observes it. -/
 def index (d : Dump) : Result :=
@@ -256,35 +472,63 @@ def index (d : Dump) : Result :=
   | some ts =>
     let os := Os.ofPlatformId d.platformId
     let cpu := Cpu.ofArch d.arch
-    let (stacks, req) := loop d 0 ts none
     let ms := loadedModules d
     let ums := unloadedModules d
-    match attachUnloaded ms ums stacks with
-    | none => .panic
-    | some stacks =>
-      .state {
-        stacks := stacks
-        requesting := req
-        exc := d.exc.map fun (e, _) => (Reason.fromException e os cpu, Reason.crashAddress e os cpu)
-        pid := processId d
-        ctime := createTime d
-        time := d.timestamp
-        modules := ms
-        unloaded := ums }
+    if !(tableOk (modEntries ms) && tableOk (memEntries (memoryList d))) then .panic
+    else
+      let (stacks, req) := loop d 0 ts none
+      if d.bigEndian && walksMemory d stacks then .unmodelled
+      else
+        match optMap (attachStack ums) stacks with
+        | none => .panic
+        | some stacks =>
+          .state {
+            stacks := stacks
+            requesting := req
+            exc := d.exc.map fun (e, _) => (Reason.fromException e os cpu, Reason.crashAddress e os cpu)
+            pid := processId d
+            ctime := createTime d
+            time := d.timestamp
+            modules := ms
+            unloaded := ums
+            sys := sysInfo d.platformId d.arch d.sys
+            lsb := d.lsb.map lsbOf
+            macCrash := macCrashInfo d.macCrash
+            bootArgs := d.bootArgs
+            assertion := none
+            certs := []
+            handles := d.handles }
 
 /-! ### line protocol
-  request (fields `key=value`, in this order, numbers decimal):
+  request (fields `key=value`; the first eleven in this order, numbers decimal; the others optional,
+  in any order, each at most once):
     `index ts=<u32> os=<platform id> cpu=<arch> th=<T> nm=<N> bp=<B> ex=<E> mi=<M> st=<S> mo=<L> um=<L>`
-    T = `-` (no thread list) | `.` (empty) | `id:ctx,..`   ctx = `r<ip>` | `u<mode>`
-    N = `-`/`.` | `id:name,..`  name = `!` for an unreadable string
-    B = `-` | `validity:dump:req`
-    E = `-` | `x` (unreadable stream) | `tid:code:flags:addr:np:p0:p1:p2:ctx`
-    M = `-` | `x` | `flags:pid:ctime:version`
-    S = `-` | `.` | `Key~value,..`
-    L = `.` | `base:size:name,..`
+          `[rg=<R>] [en=<le|be>] [ml=<ML>] [si=<SI>] [lsb=<S'>] [mac=<MC>] [ba=<BA>] [hd=<n ≥ 1>] [ps=<mask>]`
+    (`rg` first when present; `ps` = bit mask of streams that are present but not consulted:
+     1 thread-info list, 2 Crashpad info, 4 assertion info, 8 memory-info list)
+    T  = `-` (no thread list) | `.` (empty) | `id:ctx[:stk],..`
+         ctx = `r<ip>` | `r<ip>/<sp>/<fp>` | `u<mode>`
+         stk = `<start>/n` (descriptor rva 0) | `<start>/o` (outside the file) | `<start>/m<k>` (cites the
+               bytes of pool region k)
+    N  = `-`/`.` | `id:name,..`   name = `!` unreadable | ASCII token | `x<hex of UTF-16 code units>`
+    B  = `-` | `validity:dump:req`
+    E  = `-` | `x` (unreadable stream) | `tid:code:flags:addr:np:p0:p1:p2:ctx`
+    M  = `-` | `x` | `flags:pid:ctime:version`
+    S  = `-` | `.` | `Key~value,..`
+    L  = `.` | `base:size:name,..`          (name as above)
+    R  = pool of memory regions `base/size[/off.hexbytes]*,..` (zero-filled, then patched)
+    ML = `;`-separated sections `L:<i>.<i>..` (memory list of pool regions; `!<base>` = unreadable
+         descriptor) | `Q:<i>.<i>..` (memory-64 list) | `X` (unreadable memory-64 stream)
+    SI = `level:revision:ncpu:major:minor:build:csd:d0:d1:d2`   csd = `-` | name as above
+    S' = `.` | `KEY~x<hex utf8>,..`
+    MC = `.` | `version/thread/dialog/abort/<s0>/../<s4>,..`   (strings `x<hex utf8>`)
+    BA = `!` (string unreadable) | name as above
   answer:
-    `threads:id/name/info/ip/name=off+off&..;.. req:i exc:Reason addr:n pid:n ctime:n time:n mods:b:s:n,.. umods:..`
-    | `err:MissingThreadList` | `PANIC`
+    `threads:id/name/info/<frame>^<frame>..;.. req:i exc:Reason addr:n pid:n ctime:n time:n mods:b:s:n,.. umods:..`
+    ` sys:<osver>/<osbuild>/<cpuinfo>/<ncpu> lsb:.. mac:.. ba:.. as:- certs:0 hd:..`
+    | `err:MissingThreadList` | `PANIC` | `unmodelled`
+    frame = `trust|ip=..|in=..|sp=..|m=<idx|->|f=-|v=<all|r=v,..>|u=name=off+off&..`
+    names: ASCII tokens not starting with `x` as they are, everything else `x<hex utf8>`
 -/
 namespace Parse
 open Proto
@@ -292,29 +536,101 @@ open Proto
 def kv (tok : String) (key : String) : Option String :=
   if tok.startsWith (key ++ "=") then some (tok.drop (key.length + 1)).toString else none
 
-def ctx (s : String) : Option (Option Nat) :=
-  if s.startsWith "r" then (optNat (s.drop 1).toString).map some
+/-- is this architecture's context record made of 32-bit registers (x86, PPC, ARM)? -/
+def ctx32 (arch : Nat) : Bool :=
+  match Reason.lookup Enums.ProcessorArchitecture arch with
+  | some "PROCESSOR_ARCHITECTURE_INTEL" | some "PROCESSOR_ARCHITECTURE_IA32_ON_WIN64"
+  | some "PROCESSOR_ARCHITECTURE_PPC" | some "PROCESSOR_ARCHITECTURE_ARM" => true
+  | _ => false
+
+def ctx (arch : Nat) (s : String) : Option (Option Regs) :=
+  if s.startsWith "r" then
+    let lim := if ctx32 arch then U32MAX else U64MAX
+    match ((s.drop 1).toString.splitOn "/").map optNat with
+    | [some ip] => if ip ≤ lim then some (some { ip := ip }) else none
+    | [some ip, some sp, some fp] =>
+      if ip ≤ lim ∧ sp ≤ lim ∧ fp ≤ lim then some (some { ip := ip, sp := sp, fp := fp }) else none
+    | _ => none
   else if s.startsWith "u" then (optNat (s.drop 1).toString).map fun _ => none
   else none
 
 def listOf {α} (s : String) (item : String → Option α) : Option (List α) :=
   if s == "." then some [] else (s.splitOn ",").mapM item
 
-def thread (s : String) : Option Thread :=
+def isTokenChar (c : Char) : Bool := c.isAlphanum || c = '_' || c = '.'
+
+/-- pairs of bytes, big-endian, as 16-bit code units -/
+def unitsOfBytes : List UInt8 → Option (List Nat)
+  | [] => some []
+  | [_] => none
+  | a :: b :: rest => (unitsOfBytes rest).map fun r => (a.toNat * 256 + b.toNat) :: r
+
+/-- a name field: `some none` = the string is unreadable / not well-formed UTF-16 -/
+def name (s : String) : Option (Option String) :=
+  if s == "!" then some none
+  else if s.startsWith "x" then do
+    let bytes ← unhex (s.drop 1).toString
+    let units ← unitsOfBytes bytes
+    match Dump.utf16Decode units with
+    | some cs => pure (some (String.ofList (cs.map Char.ofNat)))
+    | none => pure none
+  else if !s.isEmpty && s.toList.all isTokenChar then some (some s)
+  else none
+
+/-- a UTF-8 text field `x<hex>` -/
+def text (s : String) : Option String :=
+  if s.startsWith "x" then do
+    let bytes ← unhex (s.drop 1).toString
+    String.fromUTF8? (ByteArray.mk bytes.toArray)
+  else none
+
+/-- pool region `base/size[/off.hex]*` -/
+def region (s : String) : Option Mem :=
+  match s.splitOn "/" with
+  | b :: z :: patches => do
+    let base ← optNat b
+    let size ← optNat z
+    if base > U64MAX ∨ size > 1048576 then none
+    let bytes ← patches.foldlM (fun (acc : Array UInt8) p =>
+      match p.splitOn "." with
+      | [o, h] => do
+        let off ← optNat o
+        let hs ← unhex h
+        if off + hs.length > acc.size then none
+        else pure ((hs.zipIdx).foldl (fun a (x, i) => a.set! (off + i) x) acc)
+      | _ => none) (Array.replicate size (0 : UInt8))
+    pure { base := base, bytes := bytes }
+  | _ => none
+
+def stackSpec (pool : List Mem) (s : String) : Option (Nat × StackDesc) :=
+  match s.splitOn "/" with
+  | [st, o] => do
+    let start ← optNat st
+    if start > U64MAX then none
+    if o == "n" || o == "o" then pure (start, .unreadable)
+    else if o.startsWith "m" then do
+      let k ← optNat (o.drop 1).toString
+      let r ← pool[k]?
+      pure (start, .bytes r.bytes)
+    else none
+  | _ => none
+
+def thread (arch : Nat) (pool : List Mem) (s : String) : Option Thread :=
   match s.splitOn ":" with
-  | [a, c] => do let id ← optNat a; let c ← ctx c; pure ⟨id, c⟩
+  | [a, c] => do let id ← optNat a; let c ← ctx arch c; pure { id := id, ctx := c }
+  | [a, c, st] => do
+    let id ← optNat a; let c ← ctx arch c; let (start, desc) ← stackSpec pool st
+    pure { id := id, ctx := c, stackStart := start, stack := desc }
   | _ => none
 
 def nameEntry (s : String) : Option (Nat × Option String) :=
   match s.splitOn ":" with
-  | [a, n] => do
-    let id ← optNat a
-    if n == "!" then pure (id, none) else if n.isEmpty then none else pure (id, some n)
+  | [a, n] => do let id ← optNat a; let n ← name n; pure (id, n)
   | _ => none
 
-def modEntry (s : String) : Option Mod :=
+def modEntry (s : String) : Option RawMod :=
   match s.splitOn ":" with
-  | [b, z, n] => do let b ← optNat b; let z ← optNat z; if n.isEmpty then none else pure ⟨b, z, n⟩
+  | [b, z, n] => do let b ← optNat b; let z ← optNat z; let n ← name n; pure ⟨b, z, n⟩
   | _ => none
 
 def statusEntry (s : String) : Option (String × String) :=
@@ -322,12 +638,17 @@ def statusEntry (s : String) : Option (String × String) :=
   | [k, v] => if k.isEmpty then none else some (k, v)
   | _ => none
 
-def exc (s : String) : Option (Option (Exc × Option Nat)) :=
+def lsbEntry (s : String) : Option (String × String) :=
+  match s.splitOn "~" with
+  | [k, v] => if k.isEmpty then none else (text v).map fun v => (k, v)
+  | _ => none
+
+def exc (arch : Nat) (s : String) : Option (Option (Exc × Option Regs)) :=
   if s == "-" || s == "x" then some none else
   match s.splitOn ":" with
   | [tid, code, flags, addr, np, p0, p1, p2, c] => do
     let tid ← optNat tid; let code ← optNat code; let flags ← optNat flags; let addr ← optNat addr
-    let np ← optNat np; let p0 ← optNat p0; let p1 ← optNat p1; let p2 ← optNat p2; let c ← ctx c
+    let np ← optNat np; let p0 ← optNat p0; let p1 ← optNat p1; let p2 ← optNat p2; let c ← ctx arch c
     pure (some (⟨tid, code, flags, addr, np, p0, p1, p2⟩, c))
   | _ => none
 
@@ -343,30 +664,135 @@ def misc (s : String) : Option (Option Misc) :=
   | [some f, some p, some c, some _ver] => some (some ⟨f, p, c⟩)
   | _ => none
 
+structure MemLists where
+  memList : Option (List MemDesc) := none
+  mem64 : Option (Option (List Mem)) := none
+
+def memDescItem (pool : List Mem) (it : String) : Option MemDesc :=
+  if it.startsWith "!" then
+    (optNat (it.drop 1).toString).map fun b => { base := b, bytes := none }
+  else
+    match (optNat it).bind (pool[·]?) with
+    | some r => some { base := r.base, bytes := some r.bytes }
+    | none => none
+
+def dotList {α} (body : String) (item : String → Option α) : Option (List α) :=
+  if body.isEmpty then some [] else (body.splitOn ".").mapM item
+
+def memSection (pool : List Mem) (acc : MemLists) (s : String) : Option MemLists :=
+  if s == "X" then
+    if acc.mem64.isSome then none else some { acc with mem64 := some none }
+  else if s.startsWith "L:" then
+    if acc.memList.isSome then none
+    else (dotList (s.drop 2).toString (memDescItem pool)).map fun items => { acc with memList := some items }
+  else if s.startsWith "Q:" then
+    if acc.mem64.isSome then none
+    else (dotList (s.drop 2).toString fun it => (optNat it).bind (pool[·]?)).map fun items =>
+      { acc with mem64 := some (some items) }
+  else none
+
+def sysRaw (s : String) : Option SysRaw :=
+  match s.splitOn ":" with
+  | [lv, rev, n, ma, mi, bu, csd, d0, d1, d2] => do
+    let lv ← optNat lv; let rev ← optNat rev; let n ← optNat n
+    let ma ← optNat ma; let mi ← optNat mi; let bu ← optNat bu
+    let d0 ← optNat d0; let d1 ← optNat d1; let d2 ← optNat d2
+    let csd ← if csd == "-" then pure none else name csd
+    if lv > 65535 ∨ rev > 65535 ∨ n > 255 ∨ ma > U32MAX ∨ mi > U32MAX ∨ bu > U32MAX ∨
+       d0 > U32MAX ∨ d1 > U32MAX ∨ d2 > U32MAX then none
+    pure { level := lv, revision := rev, ncpu := n, major := ma, minor := mi, build := bu, csd := csd,
+           d0 := d0, d1 := d1, d2 := d2 }
+  | _ => none
+
+def macRec (s : String) : Option MacRec :=
+  match s.splitOn "/" with
+  | [v, t, dm, ab, s0, s1, s2, s3, s4] => do
+    let v ← optNat v; let t ← optNat t; let dm ← optNat dm; let ab ← optNat ab
+    let strs ← [s0, s1, s2, s3, s4].mapM text
+    pure ⟨v, t, dm, ab, strs⟩
+  | _ => none
+
+/-- the optional fields after the first eleven -/
+structure Extra where
+  en : Option Bool := none
+  ml : Option String := none
+  si : Option SysRaw := none
+  lsb : Option (List (String × String)) := none
+  mac : Option (List MacRec) := none
+  ba : Option (Option String) := none
+  hd : Option Nat := none
+  /-- streams that are present without being consulted (bit mask; no influence on the state) -/
+  ps : Option Nat := none
+
+def extra (acc : Extra) (tok : String) : Option Extra :=
+  if let some v := kv tok "en" then
+    if acc.en.isSome then none
+    else if v == "be" then some { acc with en := some true }
+    else if v == "le" then some { acc with en := some false } else none
+  else if let some v := kv tok "ml" then
+    if acc.ml.isSome then none else some { acc with ml := some v }
+  else if let some v := kv tok "si" then
+    if acc.si.isSome then none else (sysRaw v).map fun r => { acc with si := some r }
+  else if let some v := kv tok "lsb" then
+    if acc.lsb.isSome then none else (listOf v lsbEntry).map fun r => { acc with lsb := some r }
+  else if let some v := kv tok "mac" then
+    if acc.mac.isSome then none else (listOf v macRec).map fun r => { acc with mac := some r }
+  else if let some v := kv tok "ba" then
+    if acc.ba.isSome then none else (name v).map fun r => { acc with ba := some r }
+  else if let some v := kv tok "hd" then
+    if acc.hd.isSome then none
+    else match optNat v with
+      | some (r + 1) => some { acc with hd := some (r + 1) }
+      | _ => none
+  else if let some v := kv tok "ps" then
+    if acc.ps.isSome then none else (optNat v).map fun r => { acc with ps := some r }
+  else none
+
 def dump (args : List String) : Option Dump :=
   match args with
-  | [ts, os, cpu, th, nm, bp, ex, mi, st, mo, um] => do
+  | ts :: os :: cpu :: th :: nm :: bp :: ex :: mi :: st :: mo :: um :: rest => do
     let ts ← (kv ts "ts").bind optNat
     let os ← (kv os "os").bind optNat
     let cpu ← (kv cpu "cpu").bind optNat
+    -- the pool of regions comes first among the optional fields when present
+    let (pool, rest) ← match rest with
+      | r :: more =>
+        match kv r "rg" with
+        | some v => (listOf v region).map fun p => (p, more)
+        | none => some ([], rest)
+      | [] => some ([], [])
+    let x ← rest.foldlM extra {}
     let th ← kv th "th"
-    let threads ← if th == "-" then pure none else (listOf th thread).map some
+    let threads ← if th == "-" then pure none else (listOf th (thread cpu pool)).map some
     let nm ← kv nm "nm"
     let names ← if nm == "-" then pure [] else listOf nm nameEntry
     let bp ← (kv bp "bp").bind breakpad
-    let ex ← (kv ex "ex").bind exc
+    let ex ← (kv ex "ex").bind (exc cpu)
     let mi ← (kv mi "mi").bind misc
     let st ← kv st "st"
     let status ← if st == "-" then pure none else (listOf st statusEntry).map some
     let mo ← (kv mo "mo").bind (listOf · modEntry)
     let um ← (kv um "um").bind (listOf · modEntry)
+    let ml ← match x.ml with
+      | some v => (v.splitOn ";").foldlM (memSection pool) {}
+      | none => some {}
     pure { platformId := os, arch := cpu, timestamp := ts, threads := threads, names := names,
-           breakpad := bp, exc := ex, misc := mi, status := status, modules := mo, unloaded := um }
+           breakpad := bp, exc := ex, misc := mi, status := status, modules := mo, unloaded := um,
+           bigEndian := x.en.getD false, memList := ml.memList, mem64 := ml.mem64,
+           sys := x.si.getD {}, lsb := x.lsb, macCrash := x.mac, bootArgs := x.ba, handles := x.hd }
   | _ => none
 
 end Parse
 
 def optStr (o : Option Nat) : String := match o with | some n => toString n | none => "-"
+
+/-- names in answers: ASCII tokens not starting with `x` as they are, everything else as the hex
+    of the UTF-8 bytes (injective) -/
+def showName (s : String) : String :=
+  if !s.isEmpty && s.toList.all Parse.isTokenChar && !s.startsWith "x" then s
+  else "x" ++ Proto.hex s.toUTF8.toList
+
+def showOptName (o : Option String) : String := match o with | some s => showName s | none => "-"
 
 /-- canonical rendering of `frame.unloaded_modules` (a `BTreeMap<String, BTreeSet<u64>>`):
     distinct (name, offset) pairs ordered by name, then offset -/
@@ -374,25 +800,54 @@ def renderOffsets (u : List (String × Nat)) : String :=
   let sorted := (u.eraseDups).mergeSort fun a b => a.1 < b.1 || (a.1 == b.1 && a.2 ≤ b.2)
   let names := (sorted.map (·.1)).eraseDups
   "&".intercalate (names.map fun n =>
-    n ++ "=" ++ "+".intercalate ((sorted.filter (·.1 == n)).map fun e => toString e.2))
+    showName n ++ "=" ++ "+".intercalate ((sorted.filter (·.1 == n)).map fun e => toString e.2))
 
-def renderStack (s : Stack) : String :=
+def renderFrame (arch : Nat) (f : IFrame) : String :=
+  Walk.showFrame ((unwinderOf arch).getD .x86) f.f ++ "|u=" ++ renderOffsets f.unloaded
+
+def renderStack (arch : Nat) (s : Stack) : String :=
   let info := match s.info with
     | .ok => "ok" | .missingContext => "missing" | .dumpThreadSkipped => "skipped"
-  s!"{s.id}/{s.name.getD "-"}/{info}/{optStr s.frame0}/{renderOffsets s.unloaded}"
+  s!"{s.id}/{showOptName s.name}/{info}/{"^".intercalate (s.frames.map (renderFrame arch))}"
 
 def renderMods (ms : List Mod) : String :=
-  ",".intercalate (ms.map fun m => s!"{m.base}:{m.size}:{m.name}")
+  ",".intercalate (ms.map fun m => s!"{m.base}:{m.size}:{showName m.name}")
 
-def render : Result → String
+def renderSys (s : SysInfo) : String :=
+  s!"{showName s.osVersion}/{showOptName s.osBuild}/{showOptName s.cpuInfo}/{s.cpuCount}"
+
+def renderLsb (l : Option Lsb) : String :=
+  match l with
+  | none => "-"
+  | some l => s!"{showName l.id}/{showName l.release}/{showName l.codename}/{showName l.description}"
+
+def renderMac (m : Option (List MacOut)) : String :=
+  match m with
+  | none => "-"
+  | some rs =>
+    if rs.isEmpty then "." else
+    ",".intercalate (rs.map fun r =>
+      s!"v{r.variant}/{r.version}/{optStr r.thread}/{optStr r.dialogMode}/{optStr r.abortCause}/" ++
+      "/".intercalate (r.strs.map showName))
+
+def renderBoot (b : Option (Option String)) : String :=
+  match b with
+  | none => "-"
+  | some none => "!"
+  | some (some s) => showName s
+
+def render (arch : Nat) : Result → String
   | .missingThreadList => "err:MissingThreadList"
   | .panic => "PANIC"
+  | .unmodelled => "unmodelled"
   | .state s =>
     let exc := match s.exc with
       | some (r, a) => s!"exc:{r.render} addr:{a}"
       | none => "exc:- addr:-"
-    s!"threads:{";".intercalate (s.stacks.map renderStack)} req:{optStr s.requesting} {exc} " ++
-    s!"pid:{optStr s.pid} ctime:{optStr s.ctime} time:{s.time} mods:{renderMods s.modules} umods:{renderMods s.unloaded}"
+    s!"threads:{";".intercalate (s.stacks.map (renderStack arch))} req:{optStr s.requesting} {exc} " ++
+    s!"pid:{optStr s.pid} ctime:{optStr s.ctime} time:{s.time} mods:{renderMods s.modules} umods:{renderMods s.unloaded}" ++
+    s!" sys:{renderSys s.sys} lsb:{renderLsb s.lsb} mac:{renderMac s.macCrash} ba:{renderBoot s.bootArgs}" ++
+    s!" as:{showOptName s.assertion} certs:{s.certs.length} hd:{optStr s.handles}"
 
 /-- line-protocol entry point of this model (engine: index) -/
 def handle (_engine : String) (args : List String) : String :=
@@ -404,7 +859,7 @@ def handle (_engine : String) (args : List String) : String :=
     | none => "bad-op"
   | _ =>
     match Parse.dump args with
-    | some d => render (index d)
+    | some d => render d.arch (index d)
     | none => "bad-op"
 
 end MdModel.Index
